@@ -9,6 +9,7 @@ import (
 	"encoding/json"
 	"fmt"
 	"github.com/compose-spec/compose-go/v2/types"
+	yaml "gopkg.in/yaml.v3"
 	"os"
 	"os/exec"
 	"path/filepath"
@@ -36,10 +37,39 @@ type c02Input struct {
 	Files []namedDoc        `json:"files"`
 	Env   map[string]string `json:"env"`
 	Reps  int               `json:"reps"` // repeat factor (inputs whose processing order depends on map iteration)
+	// Parsed: the documents are handed to the loader already parsed (ConfigFile.Config), the same parsed value at every load of
+	// this input in this process, as an application that parses once and loads repeatedly does; NoInterp: with SkipInterpolation
+	Parsed   bool `json:"parsed"`
+	NoInterp bool `json:"no_interp"`
+}
+
+var c02Parsed = map[string]map[string]interface{}{}
+
+func c02Files(in c02Input) []namedDoc {
+	if !in.Parsed {
+		return in.Files
+	}
+	out := make([]namedDoc, len(in.Files))
+	for i, d := range in.Files {
+		k := in.Name + "|" + d.Name
+		if c02Parsed[k] == nil {
+			var m map[string]interface{}
+			if err := yaml.Unmarshal([]byte(d.Content), &m); err != nil {
+				panic(err)
+			}
+			c02Parsed[k] = m
+		}
+		out[i] = namedDoc{Name: d.Name, Config: c02Parsed[k]}
+	}
+	return out
 }
 
 func c02Hash(in c02Input) string {
-	p, err := safeLoad(in.Dir, in.Env, in.Files)
+	var opts []func(*loader.Options)
+	if in.NoInterp {
+		opts = append(opts, func(o *loader.Options) { o.SkipInterpolation = true })
+	}
+	p, err := safeLoad(in.Dir, in.Env, c02Files(in), opts...)
 	if err != nil {
 		return "error: " + err.Error() + " | " + c02Model(in)
 	}
@@ -216,6 +246,12 @@ func C02(c *core.Ctx) {
 		Content: "services:\n  a: {extends: b}\n  c: {extends: b}\n  d: {extends: a}\n  b:\n    extends: {file: ext-other.yml, service: x}\n    extra_hosts: ['h1=1.1.1.1', 'h2=2.2.2.2', 'h3=3.3.3.3']\n    dns: [1.1.1.1, 8.8.8.8]\n"}}})
 	pool = append(pool, c02Input{Name: "extends:names-reused-in-base-file", Dir: wd, Env: map[string]string{}, Reps: 4, Files: []namedDoc{{Name: filepath.Join(wd, "reuse.yaml"), InMemory: true,
 		Content: "services:\n  web: {extends: base}\n  api: {extends: web}\n  base:\n    extends: {file: ext-other.yml, service: mid}\n    labels: {from: main-base}\n"}}})
+	// documents parsed once by the application and loaded again and again, with and without interpolation
+	for _, ni := range []bool{false, true} {
+		pool = append(pool, c02Input{Name: fmt.Sprintf("parsed-once:no-interpolation=%v", ni), Dir: wd, Env: map[string]string{}, Parsed: true, NoInterp: ni, Files: []namedDoc{
+			{Name: filepath.Join(wd, "pp1.yaml"), InMemory: true, Content: "services:\n  a: {image: i, ports: ['80:80'], environment: [A=1], volumes: ['./d:/d'], depends_on: [b]}\n  b: {image: i, build: ./ctx}\nnetworks: {n: {}}\n"},
+			{Name: filepath.Join(wd, "pp2.yaml"), InMemory: true, Content: "services:\n  a: {environment: {B: '2'}, ports: ['81:81'], networks: [n]}\n"}}})
+	}
 	// the same in three files: a list added by the second file, refined by the third
 	pool = append(pool, c02Input{Name: "merge:short-list-refined", Dir: wd, Env: map[string]string{}, Files: []namedDoc{
 		{Name: filepath.Join(wd, "r1.yaml"), InMemory: true, Content: "services:\n  web: {image: i, depends_on: [db]}\n  db: {image: i}\n  cache: {image: i}\n  queue: {image: i}\n"},
